@@ -152,6 +152,7 @@ def nodeSemL (ρ : List Val) (vs : List Val) : Node → Val
   | .op1 o a => o.sem (vs.getD a [])
   | .op2 o a b => o.sem (vs.getD a []) (vs.getD b [])
   | .dflt d => vs.getD d []
+  | .pad a w p => padTo p w (vs.getD a [])
 
 def evalL (ρ : List Val) (ns : List Node) : List Val := ns.foldl (fun vs n => vs ++ [nodeSemL ρ vs n]) []
 
